@@ -133,6 +133,7 @@ async fn run_srv(tok: &[&str]) -> String {
     };
     let tx: Vec<u8> = handle.take_writes().concat();
     let calls = log.lock().unwrap().join(";");
+    handlers.sort_by_key(|(u, _)| *u);
     let st = handlers
         .iter()
         .map(|(u, h)| format!("{}[{}]", u, h.lock().unwrap_or_else(|e| e.into_inner()).points.state_string()))
